@@ -1,6 +1,7 @@
 package main
 
 import (
+	"strings"
 	"bufio"
 	"encoding/json"
 	"fmt"
@@ -18,12 +19,26 @@ func selftest() {
 		fatal2("%v", err)
 	}
 	defer os.RemoveAll(scratch)
-	b := doBuild(scratch, false, nil)
+	builds := map[string]build{}
+	buildFor := func(stmt []string) build {
+		k := fmt.Sprint(stmt)
+		if b, ok := builds[k]; ok {
+			return b
+		}
+		sub := filepath.Join(scratch, fmt.Sprintf("b%d", len(builds)))
+		os.MkdirAll(sub, 0o755)
+		b := doBuild(sub, false, stmt)
+		builds[k] = b
+		return b
+	}
 	var ids []string
 	for id := range props {
 		ids = append(ids, id)
 	}
 	sort.Strings(ids)
+	if len(os.Args) > 2 {
+		ids = os.Args[2:]
+	}
 	n := 64
 	if v := os.Getenv("VERIF_RUNS"); v != "" {
 		fmt.Sscan(v, &n)
@@ -31,6 +46,8 @@ func selftest() {
 	bad := 0
 	total := 0
 	for _, id := range ids {
+		// the build the quick tier of this property uses (statement-level yields included)
+		b := buildFor(props[id].StmtQuick)
 		hashes := map[int][]string{}
 		for _, procs := range []int{1, 4, 16, 4} {
 			out := filepath.Join(scratch, fmt.Sprintf("%s-%d.jsonl", id, procs))
@@ -67,6 +84,29 @@ func selftest() {
 	if bad > 0 {
 		fmt.Printf("selftest: %d of %d runs diverged\n", bad, total)
 		os.Exit(2)
+	}
+	// the race build must report the known unsynchronised accesses of the SELF probes although
+	// every hand-off of the scheduler is hidden from the detector
+	rsub := filepath.Join(scratch, "race")
+	os.MkdirAll(rsub, 0o755)
+	rb := doBuild(rsub, true, nil)
+	for _, probe := range []struct{ prop, want string }{{"SELF", "selfRaceBump"}} {
+		out := filepath.Join(scratch, "probe-"+probe.prop)
+		os.MkdirAll(out, 0o755)
+		runWorkers(rb, probe.prop, 7, 40, 30, 1, out, nil)
+		reports := 0
+		files, _ := filepath.Glob(filepath.Join(out, "race_w*"))
+		for _, f := range files {
+			data, _ := os.ReadFile(f)
+			if strings.Contains(string(data), "WARNING: DATA RACE") && strings.Contains(string(data), probe.want) {
+				reports++
+			}
+		}
+		if reports == 0 {
+			fmt.Printf("selftest: race probe %s: the race build did NOT report the known race\n", probe.prop)
+			os.Exit(2)
+		}
+		fmt.Printf("selftest: race probe %s reported under owned schedules\n", probe.prop)
 	}
 	fmt.Printf("selftest: all %d runs deterministic across GOMAXPROCS 1/4/16\n", total)
 }
